@@ -13,6 +13,7 @@ import (
 	"encoding/json"
 	"fmt"
 	"sort"
+	"strconv"
 
 	"github.com/goose-lang/goose/machine"
 
@@ -36,6 +37,9 @@ type Call struct {
 type Plan struct {
 	Calls  []Call  `json:"calls"`
 	Events []Event `json:"events"`
+	// U2S: when non-empty the plan is instead a set of concurrent callers of
+	// machine.UInt64ToString, one list of arguments per task
+	U2S [][]uint64 `json:"u2s,omitempty"`
 }
 
 type c16 struct{}
@@ -60,6 +64,30 @@ func (c16) Strategy(rng *simrt.Rand) simrt.Strategy {
 
 func (c16) Gen(rng *simrt.Rand, tier string, run int) interface{} {
 	var p Plan
+	if run%8 == 5 {
+		// concurrent callers of UInt64ToString on a few numbers that alias under
+		// power-of-two (and decimal) reductions of the argument
+		base := uint64(rng.Pick(0, 1, 5, 9, 10, 42, 255, 999))
+		vals := []uint64{base}
+		for len(vals) < 2+rng.Intn(2) {
+			switch rng.Intn(4) {
+			case 0, 1:
+				vals = append(vals, base+uint64(1)<<uint(rng.Pick(4, 6, 8, 8, 10, 12, 16, 20, 32, 63)))
+			case 2:
+				vals = append(vals, base+uint64(rng.Pick(100, 1000, 1024, 4096, 65536)))
+			default:
+				vals = append(vals, base*10+uint64(rng.Intn(10)))
+			}
+		}
+		for t := 0; t < 2+rng.Intn(2); t++ {
+			var l []uint64
+			for i := 0; i < 1+rng.Intn(3); i++ {
+				l = append(l, vals[rng.Intn(len(vals))])
+			}
+			p.U2S = append(p.U2S, l)
+		}
+		return p
+	}
 	n := 1 + rng.Intn(2)
 	at := int64(0)
 	var starts, expiries []int64
@@ -110,6 +138,24 @@ func (c16) Shrink(pj json.RawMessage) []json.RawMessage {
 		b, _ := json.Marshal(q)
 		out = append(out, b)
 	}
+	if len(p.U2S) > 0 {
+		for i := range p.U2S {
+			if len(p.U2S) > 1 {
+				q := p
+				q.U2S = append(append([][]uint64{}, p.U2S[:i]...), p.U2S[i+1:]...)
+				add(q)
+			}
+			for j := range p.U2S[i] {
+				if len(p.U2S[i]) > 1 {
+					q := p
+					q.U2S = append([][]uint64{}, p.U2S...)
+					q.U2S[i] = append(append([]uint64{}, p.U2S[i][:j]...), p.U2S[i][j+1:]...)
+					add(q)
+				}
+			}
+		}
+		return out
+	}
 	for i := range p.Events {
 		q := p
 		q.Events = append(append([]Event{}, p.Events[:i]...), p.Events[i+1:]...)
@@ -136,6 +182,62 @@ func (c16) Shrink(pj json.RawMessage) []json.RawMessage {
 	return out
 }
 
+// execU2S: concurrent callers of machine.UInt64ToString; every result is
+// compared with the canonical decimal rendering.
+func execU2S(p *Plan, tape *simrt.Tape, keepLog bool) harness.RunOut {
+	s := simrt.New(simrt.Config{Tape: tape, KeepLog: keepLog, MaxSteps: 200000})
+	type bad struct {
+		task int
+		x    uint64
+		got  string
+	}
+	var bads []bad
+	res := s.Run(func() {
+		var wg simsync.WaitGroup
+		wg.Add(len(p.U2S))
+		for t := range p.U2S {
+			t := t
+			simrt.GoNamed(fmt.Sprintf("caller%d", t), func() {
+				defer wg.Done()
+				for _, x := range p.U2S[t] {
+					simrt.Yield(-60)
+					got := machine.UInt64ToString(x)
+					if got != strconv.FormatUint(x, 10) {
+						bads = append(bads, bad{t, x, got})
+					}
+				}
+			})
+		}
+		wg.Wait()
+	})
+	out := harness.RunOut{Fingerprint: res.Fingerprint, Events: res.Events, SimTime: res.SimTime, Probes: s.Probes, Faults: s.Faults,
+		Sched: tape.Sched, Aux: tape.Aux, Log: res.Log}
+	out.Probes["batch_u2s_conc"]++
+	out.NonTrivial = res.Switches > 1
+	out.Sample = map[string]interface{}{"plan": p, "events": res.Events, "switches": res.Switches}
+	fail := func(oracle, msg string) {
+		if out.Violation == nil {
+			out.Violation = &harness.Violation{Oracle: oracle, Key: oracle + "/sim", Msg: msg}
+		}
+	}
+	for _, t := range s.Tasks() {
+		if t.PanicVal != nil {
+			fail("u2s.conc.panic", fmt.Sprintf("task %s panicked: %v", t.Name, t.PanicVal))
+			return out
+		}
+	}
+	switch res.Outcome {
+	case simrt.Deadlock:
+		fail("u2s.conc.deadlock", "concurrent UInt64ToString callers never return: "+res.Detail)
+	case simrt.StepCap:
+		out.Inconclusive = "inconclusive-steps"
+	}
+	for _, b := range bads {
+		fail("u2s.conc.value", fmt.Sprintf("UInt64ToString(%d) returned %q to caller %d while other callers were formatting %v", b.x, b.got, b.task, p.U2S))
+	}
+	return out
+}
+
 type stampedEv struct {
 	kind  string
 	call  int
@@ -149,6 +251,9 @@ func (c16) Exec(pj json.RawMessage, tape *simrt.Tape, keepLog bool) harness.RunO
 	var p Plan
 	if err := json.Unmarshal(pj, &p); err != nil {
 		return harness.RunOut{Infra: err.Error()}
+	}
+	if len(p.U2S) > 0 {
+		return execU2S(&p, tape, keepLog)
 	}
 	s := simrt.New(simrt.Config{DaemonsOK: true, Tape: tape, KeepLog: keepLog, MaxSteps: 200000})
 	var evs []stampedEv
